@@ -229,7 +229,13 @@ def gen_pcm_case(rng):
         nan_asset = None
     if nan_asset and all(a != nan_asset for a, q in fills):
         prices[nan_asset] = None
-    return dict(kind='pcm', long_only=lo, param=(big if big is not None else (rng.choice([0.0, 0.05, 0.3]) if lo else rng.choice([0.5, 1.0, 2.0]))),
+    rounds = []
+    if rng.random() < 0.4:
+        for _ in range(rng.choice([1, 1, 2])):
+            rounds.append([rng.choice([0, 0, 0, 60, 3600]),
+                           ([rng.choice(ALL), rng.randint(1, 300) * (1 if lo or rng.random() < 0.6 else -1)] if rng.random() < 0.4 else None)])
+        rounds = [[sum(r[0] for r in rounds[:i + 1]), r[1]] for i, r in enumerate(rounds)]
+    return dict(kind='pcm', rounds=rounds, long_only=lo, param=(big if big is not None else (rng.choice([0.0, 0.05, 0.3]) if lo else rng.choice([0.5, 1.0, 2.0]))),
                 fee=gen_fee(rng), prices=prices, fills=fills, universe=uni, alpha=alpha, t=MON_OPEN + rng.choice([0, 60, 3600]),
                 entry_tz=(rng.choice(ZONES) if rng.random() < 0.3 else None), nat=rng.random() < 0.4, other_pf=rng.random() < 0.25)
 
@@ -247,7 +253,9 @@ def gen_dyn_case(rng):
         e = rng.choice([x for a, x in dates if x is not None] or [t])
         more.append(rng.choice([e, e - 1, e + 1, t + rng.choice([-3600, 3600, 23 * 3600]), (t // 86400) * 86400 + rng.randrange(0, 86400),
                                 t - 86400, t + 86400]))
-    return dict(kind='dyn', dates=dates, t=t, more=more, entry_tz=(rng.choice(ZONES) if rng.random() < 0.35 else None), nat=rng.random() < 0.4)
+    # the configured list of a static universe: any order, possibly empty, possibly naming an asset more than once
+    static_list = [rng.choice(ALL) for _ in range(rng.randint(0, 6))] if rng.random() < 0.5 else rng.sample(ALL, rng.randint(0, 6))
+    return dict(kind='dyn', static_list=static_list, dates=dates, t=t, more=more, entry_tz=(rng.choice(ZONES) if rng.random() < 0.35 else None), nat=rng.random() < 0.4)
 
 
 def gen_eqw_case(rng):
@@ -333,9 +341,34 @@ def run_pcm(case):
             return r
 
     pcm = PortfolioConstructionModel(b, '1', uni, Tap(), FixedWeightPortfolioOptimiser(), alpha_model=alpha, data_handler=dh)
-    t = ts(case['t'])
-    res = dict(held=held, universe=list(uni.get_assets(t)), alpha=[[a, float(w)] for a, w in alpha(t).items()])
     stats = {'target_allocations': []}
+    first = _pcm_round(case, case['t'], b, pcm, uni, alpha, rec, stats, held)
+    # the same model object serves further rebalances: at the same instant again or later, after the first round's fills
+    # and possibly a fill from elsewhere in between
+    more = []
+    for (dt_off, between) in case.get('rounds', []):
+        tn = case['t'] + dt_off
+        try:
+            if between is not None:
+                b.submit_order('1', Order(b.current_dt, between[0], between[1]))
+            b.update(ts(tn))
+            held_n = [[a, int(v['quantity'])] for a, v in b.get_portfolio_as_dict('1').items()]
+        except Exception:
+            break
+        rec.clear()
+        r = _pcm_round(case, tn, b, pcm, uni, alpha, rec, stats, held_n)
+        r['t'] = tn
+        more.append(r)
+        if r['out'] != 'ok' or not isinstance(r.get('after'), list):
+            break
+    first['more'] = more
+    return first
+
+
+def _pcm_round(case, t_secs, b, pcm, uni, alpha, rec, stats, held):
+    t = ts(t_secs)
+    res = dict(held=held, universe=list(uni.get_assets(t)), alpha=[[a, float(w)] for a, w in alpha(t).items()])
+    n_rec = len(stats['target_allocations'])
     try:
         orders = pcm(t, stats=stats)
         res['out'] = 'ok'
@@ -348,8 +381,10 @@ def run_pcm(case):
     res['target'] = rec.get('t')
     res['universe_after'] = list(uni.get_assets(t))
     res['alpha_after'] = [a for a in alpha(t)]
-    res['alloc'] = [[k, float(v)] for k, v in stats['target_allocations'][0].items() if k != 'Date'] if stats['target_allocations'] else None
-    res['alloc_date'] = secs(stats['target_allocations'][0]['Date']) if stats['target_allocations'] else None
+    fresh = stats['target_allocations'][n_rec:]
+    res['alloc'] = [[k, float(v)] for k, v in fresh[-1].items() if k != 'Date'] if fresh else None
+    res['alloc_date'] = secs(fresh[-1]['Date']) if fresh else None
+    res['alloc_records_added'] = len(fresh)
     if res['out'] == 'ok':
         for o in orders:
             b.submit_order('1', o)
@@ -368,7 +403,12 @@ def run_dyn(case):
     am = SingleSignalAlphaModel(uni, signal=0.75)
     ss = am(ts(case['t']))
     more = [[t, list(uni.get_assets(ts(t))), [a for a in am(ts(t))]] for t in case.get('more', [])]
-    return dict(assets=got, static=stat, single=[[a, float(w)] for a, w in ss.items()], more=more)
+    if case.get('static_list') is not None:
+        su = StaticUniverse(list(case['static_list']))
+        stat2 = [list(su.get_assets(ts(t))) for t in [case['t']] + list(case.get('more', []))]
+    else:
+        stat2 = None
+    return dict(static_list=stat2, assets=got, static=stat, single=[[a, float(w)] for a, w in ss.items()], more=more)
 
 
 def run_eqw(case):
@@ -671,6 +711,8 @@ def oracle_c09(case, real):
                 out.append(dict(what='allocation weight of %s is %r although the alpha model is silent' % (a, al[a]), key='alloc-zero'))
             if a in al and a in aw and al[a] != aw[a]:
                 out.append(dict(what='allocation weight of %s is %r, alpha weight %r' % (a, al[a], aw[a]), key='alloc-value'))
+    if real['out'] == 'ok' and real.get('alloc_records_added', 1) != 1:
+        out.append(dict(what='one rebalance added %d allocation records' % real['alloc_records_added'], key='alloc-count'))
     if real['out'] != 'ok' or real['target'] is None:
         return out
     tgt = dict((a, q) for a, q in real['target'])
@@ -702,6 +744,10 @@ def oracle_c19(case, real):
             out.append(dict(what='static universe returned %r' % real['static'], key='static'))
         if [a for a, w in real['single']] != want or any(w != 0.75 for a, w in real['single']):
             out.append(dict(what='single-signal alpha weights %r for universe %r' % (real['single'], want), key='alpha-keys'))
+        for got in (real.get('static_list') or []):
+            if got != list(case['static_list']):
+                out.append(dict(what='static universe configured with %r yields %r' % (case['static_list'], got), key='static-list'))
+                break
         for t, got, akeys in real.get('more', []):
             w2 = [a for a, e in case['dates'] if e is not None and e <= t]
             if got != w2 or akeys != w2:
@@ -720,7 +766,8 @@ def oracle_c19(case, real):
             real['universe_after'] != real['universe'] or real['alpha_after'] != [a for a, w in real['alpha']]):
         out.append(dict(what='the universe answers %r after a portfolio-construction call, %r before it (alpha keys %r -> %r)' % (
             real['universe_after'], real['universe'], [a for a, w in real['alpha']], real['alpha_after']), key='universe-changed-by-construction'))
-    elif case['kind'] == 'pcm' and 'dynamic' in case['universe'] and 'single' in case['alpha'] and not case['fills']:
+    elif case['kind'] == 'pcm' and 'dynamic' in case['universe'] and 'single' in case['alpha'] and not case['fills'] and not any(
+            r[1] for r in case.get('rounds', [])):
         entered = set(a for a, e in case['universe']['dynamic'] if e is not None and e <= case['t'])
         if real['alloc'] is not None:
             for a, w in real['alloc']:
@@ -773,6 +820,16 @@ def run(prop, tier, seed, n_cases, corpus=()):
     rng = rng_for(seed, 'K4' + prop, tier)
     cases = list(corpus) + gen_cases(prop, rng, n_cases)
     reals = [execute(c) for c in cases]
+    # every further round of a multi-round PCM case is judged like a case of its own (same configuration, the holdings and
+    # the instant of that round)
+    ec, er = [], []
+    for c, r in zip(cases, reals):
+        ec.append(c)
+        er.append(r)
+        for j, r2 in enumerate(r.get('more', []) if c['kind'] == 'pcm' and isinstance(r, dict) else []):
+            ec.append(dict(c, round=j + 1, t=r2['t']))
+            er.append(r2)
+    cases, reals = ec, er
     lines, spans = [], []
     for c, r in zip(cases, reals):
         ls_ = model_lines(c, r)
